@@ -7,6 +7,7 @@ import Driver.Util
 import OAP.Model.Handshake
 import Driver.Meta
 import Driver.Frame
+import Driver.Stream
 open OAP Driver
 
 def badOp (line : String) : String := s!"bad-op {line}"
@@ -41,7 +42,7 @@ def dispatch (op : String) (a : Args) : Option String :=
   | "hs.unpack" => opHsUnpack a
   | "hs.ctx" => opHsCtx a
   | "proto.get" => opProtoGet a
-  | _ => ((Driver.metaOps ++ Driver.frameOps).find? (·.1 == op)).bind (fun f => f.2 a)
+  | _ => ((Driver.metaOps ++ Driver.frameOps ++ Driver.streamOps).find? (·.1 == op)).bind (fun f => f.2 a)
 
 partial def loop (hin : IO.FS.Stream) (hout : IO.FS.Stream) : IO Unit := do
   let line ← hin.getLine
